@@ -823,6 +823,20 @@ def _pad_and_chunk_value_tables(ctx: Ctx):
                                 and all(g_ == fill for g_ in row_[len(want):])
                             if not ok and bad["pad"] is None:
                                 bad["pad"] = (mode, rest, lens[i], (pads[0][i], pads[1][i]), (tuple(got.shape), row_), want)
+        # a batch of empty sequences (time extent 0, with and without a feature axis): constant padding gives left + right fill values
+        for rest in ((), (2,)):
+            fill = np.full(rest, VALUE).tolist()
+            N = 3
+            x0 = np.zeros((N, 0) + rest)
+            pads = [[2, 0, 1], [1, 0, 3]]
+            kind, got = run(pv, dict(x=frac_array(x0.tolist()) if x0.size else np.empty((N, 0) + rest, dtype=object), lens=frac_array([0] * N),
+                                     pad=frac_array(pads), mode="constant", value=VALUE))
+            rows["pad"] += 1
+            ok = kind == "return" and hasattr(got, "shape") and tuple(got.shape[2:]) == rest and got.shape[0] == N and all(
+                np.asarray(got[i]).tolist()[:pads[0][i] + pads[1][i]] == [fill] * (pads[0][i] + pads[1][i]) for i in range(N))
+            if not ok and bad["pad"] is None:
+                bad["pad"] = ("constant", rest, 0, (pads[0], pads[1]), (tuple(got.shape), np.asarray(got).tolist()) if kind == "return" and hasattr(got, "shape") else f"{kind}: {got}",
+                              "left + right fill values per sequence")
     except NotEvaluable as e:
         col.undecided(f"{rel}: pad_variable / chunk_by_slices are outside the interpreted fragment ({e}); their values are not decided")
         return
